@@ -297,3 +297,20 @@ Definition pstep_full (p : pacer) (o : pop) : pacer * Z * bool :=
   | PScaled ns bw => (p, time_scaled p bw ns, false)
   end.
 Definition pstep (p : pacer) (o : pop) : pacer := fst (fst (pstep_full p o)).
+
+(** * sentPacketHandler.SendMode: the decision, as a function of the inputs it reads
+    (number of tracked packets, amplification limit, probes to send and their mode,
+    bytes in flight, congestion window, HasPacingBudget). Modes are the SendMode enum values. *)
+Inductive gate := G (tracked : Z) (amp : bool) (probes pto bif cw : Z) (budget : bool).
+
+Definition send_mode (g : gate) : Z :=
+  match g with
+  | G tracked amp probes pto bif cw bud =>
+    if amp then sm_SendNone
+    else if tracked >=? sm_maxTrackedSentPackets then sm_SendNone
+    else if probes >? 0 then pto
+    else if negb (bif <? cw) then sm_SendAck          (* !congestion.CanSend(bytesInFlight) *)
+    else if tracked >=? sm_maxOutstandingSentPackets then sm_SendAck
+    else if negb bud then sm_SendPacingLimited
+    else sm_SendAny
+  end.
